@@ -245,6 +245,9 @@ end
 
 /-! ### The count of the body of `draw_stacking_context` -/
 
+theorem cntBg_drawReplaced (i : Nat) (a : Attrs) (e : Env) : cntBg i (drawReplaced a e) = 0 := by
+  unfold drawReplaced; split <;> simp [cntBg, isBg]
+
 theorem cntBg_inlBoxWith (i : Nat) (a : Attrs) (k : Env → List Item) (e : Env) :
     cntBg i (inlBoxWith a k e) =
       (bgOf a).count i + (if a.kind.dilInlineOrLine then cntBg i (k e) else 0) := by
@@ -253,7 +256,7 @@ theorem cntBg_inlBoxWith (i : Nat) (a : Attrs) (k : Env → List Item) (e : Env)
   by_cases h1 : a.kind.dilInlineOrLine = true
   · simp [h1]
   · by_cases h2 : a.kind.dilInlineReplaced = true
-    · simp [h1, h2, cntBg, isBg]
+    · simp [h1, h2, cntBg_drawReplaced]
     · by_cases h3 : a.kind.dilText = true
       · simp [h1, h2, h3, cntBg_drawText]
       · simp [h1, h2, h3, cntBg, isBg]
@@ -267,7 +270,7 @@ theorem cntBg_point7With (i : Nat) (a : Attrs) (kids : List Node) (k : Env → L
 theorem cntBg_point7With_nil (i : Nat) (a : Attrs) (k : Env → List Item) (e : Env) :
     cntBg i (point7With a [] k e) = 0 := by
   unfold point7With
-  by_cases hr : a.kind.drawReplaced = true <;> simp [hr, lastIsLine, cntBg, isBg]
+  by_cases hr : a.kind.drawReplaced = true <;> simp [hr, lastIsLine, cntBg_drawReplaced]
 
 theorem cntBg_paintBodyWith (i : Nat) (pov : Bool) (a : Attrs)
     (neg blocks floats ik pt7 zero pos outl : Env → List Item) (env : Env)
